@@ -216,7 +216,7 @@ impl Tzif {
         let result = db.transition_times.binary_search(epoch_seconds);
 
         match result {
-            Ok(idx) => Ok(get_timezone_offset(db, idx - 1)),
+            Ok(idx) => Ok(get_timezone_offset(db, idx)),
             // <https://datatracker.ietf.org/doc/html/rfc8536#section-3.2>
             // If there are no transitions, local time for all timestamps is specified by the TZ
             // string in the footer if present and nonempty; otherwise, it is
